@@ -1,6 +1,7 @@
 package main
 
 import (
+	"os"
 	"bytes"
 	"errors"
 	"fmt"
@@ -377,4 +378,109 @@ func opCanon(args []string) string {
 		return "enc err " + errClass(err)
 	}
 	return "ok " + hexs(b1)
+}
+
+// ---- spec view (C04): values shown as the TS 24.501 value part, using the pinned tables ----
+
+var specTables *fTables
+
+func specT() *fTables {
+	if specTables == nil {
+		sp := os.Getenv("VERIF_SPEC")
+		if sp == "" {
+			sp = "/verif/spec"
+		}
+		specTables = loadTables(sp)
+	}
+	return specTables
+}
+
+func init() {
+	ops["sdec"] = opSdec
+	ops["senc"] = opSenc
+	oracles["C04"] = func(op string, args []string) string { return skip }
+}
+
+// value part of an element as the spec sees it: the first Len octets for lengthed elements stored in arrays
+func specValue(s *fSlot, v reflect.Value) (iei, ln uint64, val []byte) {
+	if f := v.FieldByName("Iei"); f.IsValid() {
+		iei = f.Uint()
+	}
+	if f := v.FieldByName("Len"); f.IsValid() {
+		ln = f.Uint()
+	}
+	val = getContents(v)
+	if s.LenSize > 0 && s.Store == "arr" && s.Span == "toLen" && int(ln) <= len(val) {
+		val = val[:ln]
+	}
+	return
+}
+
+// sdec <Msg> <hex>: Decode<Msg> on the real code, shown in the spec's vocabulary
+func opSdec(args []string) string {
+	if len(args) != 2 {
+		return "bad-op"
+	}
+	pt, ok := msgTypes[args[0]]
+	in, ok2 := unhex(args[1])
+	m := specT().msg(args[0])
+	if !ok || !ok2 || m == nil {
+		return "bad-op"
+	}
+	body := reflect.New(pt.Elem())
+	res := body.MethodByName("Decode" + args[0]).Call([]reflect.Value{reflect.ValueOf(&in)})
+	if !res[0].IsNil() {
+		return "err"
+	}
+	var parts []string
+	slots := append(append([]fSlot{}, m.DecMan...), m.DecOpt...)
+	for i := range slots {
+		f := body.Elem().FieldByName(slots[i].Name)
+		if !f.IsValid() {
+			return "bad-op"
+		}
+		if f.Kind() == reflect.Ptr {
+			if f.IsNil() {
+				continue
+			}
+			f = f.Elem()
+		}
+		iei, ln, val := specValue(&slots[i], f)
+		parts = append(parts, fmt.Sprintf("%s=%d:%d:%s", slots[i].Name, iei, ln, hexs(val)))
+	}
+	if len(parts) == 0 {
+		return "ok " + args[0] + " -"
+	}
+	return "ok " + args[0] + " " + strings.Join(parts, ";")
+}
+
+// senc <Msg> <fields (spec values)>: Encode<Msg> on the real code
+func opSenc(args []string) string {
+	if len(args) != 2 {
+		return "bad-op"
+	}
+	pt, ok := msgTypes[args[0]]
+	fs, ok2 := parseFields(args[1])
+	m := specT().msg(args[0])
+	if !ok || !ok2 || m == nil {
+		return "bad-op"
+	}
+	// pad array-stored values back to the array size
+	slots := append(append([]fSlot{}, m.DecMan...), m.DecOpt...)
+	for i := range fs {
+		for j := range slots {
+			if slots[j].Name == fs[i].name && slots[j].Store == "arr" && len(fs[i].data) < slots[j].ArrN {
+				fs[i].data = append(append([]byte{}, fs[i].data...), make([]byte, slots[j].ArrN-len(fs[i].data))...)
+			}
+		}
+	}
+	body, ok := buildBody(pt, fs)
+	if !ok {
+		return "bad-op"
+	}
+	out, err := encodeBuilt("msg", args[0], nil, body, nil)
+	if err != nil {
+		return "err"
+	}
+	return "ok " + hexs(out)
 }
